@@ -100,7 +100,7 @@ func (p *pProfProtoDec) Decode() error {
 	endValue := p.ctx.ctxMap["until"]
 	end, err := strconv.ParseUint(endValue, 10, 64)
 	if err != nil {
-		fmt.Errorf("failed to parse end time: %w", err)
+		return fmt.Errorf("failed to parse end time: %w", err)
 	}
 	name := p.ctx.ctxMap["name"]
 	i := strings.Index(name, "{")
